@@ -210,6 +210,11 @@ func (u *Universe) ManBytes(i int) []byte {
 		for _, l := range m.Layers {
 			d := u.blobDesc(l)
 			d.MediaType = ocispec.MediaTypeImageLayer
+			if m.Salt%3 == 0 {
+				// a layer that can also be fetched elsewhere is a layer of the manifest like any other
+				d.URLs = []string{"https://mirror.test/layers/" + string(d.Digest)}
+				d.Annotations = map[string]string{"org.example.note": "also available elsewhere"}
+			}
 			im.Layers = append(im.Layers, d)
 		}
 		if m.BadDesc > 0 {
